@@ -44,6 +44,9 @@ Base == [camel |-> FALSE, query |-> "Query", mutation |-> "", subscription |-> "
     [k |-> "object", name |-> "Person", ifaces |-> <<"Node">>, desc |-> "", dres |-> "", rt |-> "",
        fields |-> << Fld("id", Named("ID"), <<>>, "", ""), Fld("label", Named("String"), <<>>, "", ""), Fld("things", ListOf(NN(Named("Item"))), <<>>, "", "") >>],
     [k |-> "union", name |-> "U", members |-> <<"Item", "Person">>, desc |-> "either", rt |-> "rt_u"],
+    \* a second union that shares exactly ONE possible type with the interface Node (Item): removing Item leaves Node = {Person} and
+    \* W = {Query}, which no longer overlap - what operations may spread where depends on the schema value AFTER the plan
+    [k |-> "union", name |-> "W", members |-> <<"Item", "Query">>, desc |-> "", rt |-> "rt_w"],
     [k |-> "enum", name |-> "Level", values |-> << [name |-> "LOW", dep |-> ""], [name |-> "MID", dep |-> ""], [name |-> "HIGH", dep |-> "too high"] >>, desc |-> ""],
     [k |-> "input", name |-> "Filter", desc |-> "",
        fields |-> << ArgD("min", Named("Int"), [k |-> "int", v |-> "1"]), Arg("level", Named("Level")), Arg("at", Named("Date")),
